@@ -42,6 +42,21 @@ def profile(tier):
     }
 
 
+def profile_shared(tier):
+    """Several channels of ONE basis over 2 atoms: pulses of different channels overlap on an
+    atom (protocol 'no-delay' included), so 'the latest pulse that used the atom' is not the
+    most recently added one."""
+    p = profile(tier)
+    return dict(p, fault_pct=0, min_ops=8, max_ops=28,
+                protocols=["no-delay", "no-delay", "min-delay", "wait-for-all"],
+                weights={"declare": 8, "declare_more": 3, "add": 14, "align": 0, "delay": 1,
+                         "phase_shift": 7, "target": 3, "eom": 0},
+                device=gen.device_specs(n_channels=(2, 3), allow_builtin=False, allow_dmm=False,
+                                        chan_kw={"kind": "Rydberg", "eom": False,
+                                                 "bandwidth": [None, None, 8]}),
+                register=gen.register_specs(n=(1, 2)))
+
+
 def check(case, ctx: Ctx):
     w = history.Walker(case, ctx, {"C07"}).run()
     st_ = w.stats
@@ -116,8 +131,11 @@ def check_ramsey(case, ctx: Ctx):
 
 CLAUSES = [
     Clause("model", check, gen=lambda t: gen.programs(profile(t)),
-           budget={"quick": (12, 200), "thorough": (16, 6000)},
+           budget={"quick": (12, 200), "thorough": (16, 4000)},
            doc="C07.sum / C07.applied / C07.barrier per step against M3"),
+    Clause("shared_basis", check, gen=lambda t: gen.programs(profile_shared(t)),
+           budget={"quick": (8, 120), "thorough": (16, 2000)},
+           doc="several channels of one basis over 1-2 atoms (overlapping pulses, no-delay)"),
     Clause("ramsey", check_ramsey, gen=lambda t: ramsey_cases(),
            budget={"quick": (4, 25), "thorough": (16, 200)},
            doc="two pi/2 pulses separated by a virtual-Z of phi: P = cos^2(phi/2)"),
